@@ -873,6 +873,7 @@ func run(r *ev.Run, id string) {
 		r.Sample("graph", map[string]interface{}{"pool": p, "clients": nc, "states": res.States, "transitions": res.Transitions, "depth": res.Depth, "fixpoint": res.Fixpoint, "merge_checks": res.MergeChecks})
 	}
 	manyLeases(r, id)
+	spelledPools(r, id)
 	irrelevantOptions(r, id)
 	if id == "C08" {
 		runSched(r)
@@ -908,6 +909,36 @@ func irrelevantOptions(r *ev.Run, id string) {
 			}
 		}
 		r.Add("irrelevant_option_histories", 1)
+	}
+}
+
+// spelledPools: the pool written in the configuration with host bits set, upper case or
+// uncompressed: the pool is the network the spelling denotes, and every oracle of Apply holds
+// while two clients fill it.
+func spelledPools(r *ev.Run, id string) {
+	for _, cidr := range []string{"2001:db8:0:13::5/62", "2001:db8:0:10::1/62", "2001:db8:0:11::/62", "2001:DB8:0:10:0:0:0:0/62", "2001:db8:0:12:ffff:ffff:ffff:ffff/62", "2001:db8:0:1::1/56"} {
+		if _, err := prefix.Plugin.Setup6(cidr, "64"); err != nil {
+			r.Eval("spelled-pool/rejected-at-setup") // refusing a spelling is a configuration matter
+			continue
+		}
+		s := NewSys(r, id, Pool{cidr, 64}, 2, false)
+		hist := []Op{
+			{Client: "A", Msg: 1, IAPDs: [][]string{{}}},
+			{Client: "B", Msg: 1, IAPDs: [][]string{{}}},
+			{Client: "A", Msg: 5, IAPDs: [][]string{{"own1"}}},
+			{Client: "B", Msg: 3, IAPDs: [][]string{{"free1"}}},
+			{Client: "A", Msg: 3, IAPDs: [][]string{{"free1"}, {"len-page"}}},
+			{Client: "B", Msg: 1, IAPDs: [][]string{{"len0", "len0"}}},
+			{Client: "A", Msg: 5, IAPDs: [][]string{{}}},
+			{Client: "B", Msg: 5, IAPDs: [][]string{{"own1"}, {}}},
+		}
+		for _, op := range hist {
+			s.Apply(s.concretize(op), true)
+			if s.Terminal() {
+				break
+			}
+		}
+		r.Add("spelled_pool_histories", 1)
 	}
 }
 
